@@ -275,6 +275,10 @@ def gen_tissue(r, cm, quick=True, force_kind=None):
     prep = 0 if cm == 0 else r.choice([0, 1, 1])
     for c in cells:
         c.maxcurv = r.choice([1e300, 1e300, 1e300, r.uniform(0.5, 3.0) / R])
+    # bit 1 of prep: every cell carries 1-3 released face slots in front of its live faces (as edge collapses leave them until the
+    # next rebase); the global face ids, boxes and voxel lists must be those of the live faces only
+    if r.randint(0, 1):
+        prep |= 2
     return Tissue(cells, lmin, cadh, crep, threads, prep, kind=kind)
 
 
